@@ -1119,10 +1119,29 @@ class Engine:
                 outs = []
                 st.events.append({'k': 'drain_begin', 'eid': eid, 'queue': q, 'fn': fn['path'], 'ln': t['ln'],
                                   'frame': frame})
+                before = dict(st.store)
+                nframe0 = st.nframe
+                qop_ev = dict(st.events[-2])
                 for st2, rv in self.call_closure(st, clo, [('ref', tok)]):
-                    st2.events.append({'k': 'drain_end', 'eid': eid, 'queue': q, 'fn': fn['path'],
-                                       'ln': t['ln'], 'frame': frame})
-                    outs.append((st2, UNIT if rv is not PANIC else PANIC))
+                    carried = rv is not PANIC and any(
+                        (loc[0][0] == 'C' or (loc[0][0] == 'L' and loc[0][1] <= nframe0)) and loc in before
+                        and before[loc] != v_ for loc, v_ in st2.store.items())
+                    if not carried:
+                        st2.events.append({'k': 'drain_end', 'eid': eid, 'queue': q, 'fn': fn['path'],
+                                           'ln': t['ln'], 'frame': frame})
+                        outs.append((st2, UNIT if rv is not PANIC else PANIC))
+                        continue
+                    # the callback keeps state between nodes (a captured `&mut` local it wrote): what it does to the
+                    # SECOND node may differ from what it does to the first - run it once more on another node
+                    eid2 = st2.eid()
+                    tok2 = (('tok', eid2),)
+                    e2 = dict(qop_ev)
+                    e2.update({'eid': eid2, 'node': tok2, 'second': True})
+                    st2.events.append(e2)
+                    for st3, rv3 in self.call_closure(st2, clo, [('ref', tok2)]):
+                        st3.events.append({'k': 'drain_end', 'eid': eid, 'queue': q, 'fn': fn['path'],
+                                           'ln': t['ln'], 'frame': frame})
+                        outs.append((st3, UNIT if rv3 is not PANIC else PANIC))
                 return outs
             if name == 'new':
                 ev('qop', op='new', queue=None, node=None)
